@@ -5,7 +5,7 @@ From Coq Require Import ZArith List Bool Reals Lia Lra.
 From FT.lib Require Import Num Arr ArrLemmas Lower NumArr.
 From FT.gen Require Import Common Interp2d Interp3d Vinterp2d Vinterp3d FteikCommon Fteik2d Fteik3d Ray2d Ray3d.
 From FT.proofs Require Import Sweep2dProofs Sweep3dProofs GradR Solve2dProofs Solve3dProofs.
-From FT.proofs Require GradUnit.
+From FT.proofs Require GradUnit GradSign.
 Import ListNotations.
 Open Scope R_scope.
 
@@ -122,6 +122,57 @@ Theorem C11_solve2d_gradient_empty_without_flag :
        shape ttgrad = [0%Z; 0%Z; 0%Z] /\ dat ttgrad = [].
 Proof. exact @GradUnit.fteik2d_gradient_empty_without_flag. Qed.
 
+(* exact arithmetic, whole 2D solver: every returned gradient vector is (rz, rx) / |(rz, rx)| where rz = s * (tt[i,j] - tt[i-s,j]) / dz for the recorded direction s = +-1 (the backward difference quotient of the RETURNED traveltime grid for s = +1, the forward one for s = -1), or the initialisation seed when s = 0; same for x; components in the order (Z, X) *)
+Theorem C11_gradient_is_normalised_one_sided_difference_2d :
+  forall (slow : arr R) (dz dx zsrc xsrc : R) (nsweep : Z) (tt ttgrad : arr R) (vzero : R),
+       fteik2d slow dz dx zsrc xsrc nsweep true = Ok (tt, ttgrad, vzero) ->
+       let sg := snd (GradSign.final_state slow dz dx zsrc xsrc nsweep) in
+       let G0 := i_ttgrad slow dz dx zsrc xsrc true in
+       tt = fst (GradSign.final_state slow dz dx zsrc xsrc nsweep) /\
+       (forall i j : Z,
+        (0 <= i < dim slow 0 + 1)%Z ->
+        (0 <= j < dim slow 1 + 1)%Z ->
+        let rz := GradSign.raw_z tt sg dz G0 i j in
+        let rx := GradSign.raw_x tt sg dx G0 i j in
+        get 0 ttgrad [i; j; 0%Z] = GradSign.normed rz rx rz /\ get 0 ttgrad [i; j; 1%Z] = GradSign.normed rz rx rx).
+Proof. exact @GradSign.fteik2d_gradient_assembly. Qed.
+
+(* hence each component's sign is the sign of that one-sided difference of the returned grid: c * s >= 0 iff the neighbour i - s is not later than the node, c * s < 0 iff it is later - the component points towards increasing traveltime of the grid it is returned with *)
+Theorem C11_gradient_component_sign_follows_grid_difference_2d :
+  forall (slow : arr R) (dz dx zsrc xsrc : R) (nsweep : Z) (tt ttgrad : arr R) (vzero : R),
+       0 < dz ->
+       0 < dx ->
+       fteik2d slow dz dx zsrc xsrc nsweep true = Ok (tt, ttgrad, vzero) ->
+       let sg := snd (GradSign.final_state slow dz dx zsrc xsrc nsweep) in
+       forall i j : Z,
+       (0 <= i < dim slow 0 + 1)%Z ->
+       (0 <= j < dim slow 1 + 1)%Z ->
+       (let s := get 0%Z sg [i; j; 0%Z] in
+        let c := get 0 ttgrad [i; j; 0%Z] in
+        s <> 0%Z ->
+        (0 <= c * IZR s <-> get 0 tt [(i - s)%Z; j] <= get 0 tt [i; j]) /\
+        (c * IZR s < 0 <-> get 0 tt [i; j] < get 0 tt [(i - s)%Z; j])) /\
+       (let s := get 0%Z sg [i; j; 1%Z] in
+        let c := get 0 ttgrad [i; j; 1%Z] in
+        s <> 0%Z ->
+        (0 <= c * IZR s <-> get 0 tt [i; (j - s)%Z] <= get 0 tt [i; j]) /\
+        (c * IZR s < 0 <-> get 0 tt [i; j] < get 0 tt [i; (j - s)%Z])).
+Proof. exact @GradSign.fteik2d_gradient_sign_iff. Qed.
+
+(* observation (not a clause of the property): the recorded direction s is NOT always the upwind one - homogeneous 1 x 2 cells, source (1/4, 1/2): node (0,2) is initialised from the virtual row through the source and keeps s = -1 pointing to the LATER node (1,2), for every nsweep; the component is then the forward difference (+0.16, analytic -0.16, 1.5 cells from the source: inside the two-cell zone the property excludes) *)
+Theorem C11_recorded_direction_not_always_upwind :
+  forall nsweep : Z,
+       exists (tt G : arr R) (v : R),
+         fteik2d GradSign.w2_slow 1 1 (1 / 4) (1 / 2) nsweep true = Ok (tt, G, v) /\
+         get 0%Z (snd (GradSign.final_state GradSign.w2_slow 1 1 (1 / 4) (1 / 2) nsweep)) [0%Z; 2%Z; 0%Z] = (-1)%Z /\
+         get 0 tt [0%Z; 2%Z] = Fteik2d.t_ana 0 2 1 1 (1 / 4) (1 / 2) 1 /\
+         get 0 tt [1%Z; 2%Z] = Fteik2d.t_ana 1 2 1 1 (1 / 4) (1 / 2) 1 /\
+         get 0 tt [0%Z; 2%Z] < get 0 tt [1%Z; 2%Z] /\
+         0 < get 0 G [0%Z; 2%Z; 0%Z] /\
+         get 0 G [0%Z; 2%Z; 0%Z] *
+         IZR (get 0%Z (snd (GradSign.final_state GradSign.w2_slow 1 1 (1 / 4) (1 / 2) nsweep)) [0%Z; 2%Z; 0%Z]) < 0.
+Proof. exact @GradSign.fteik2d_gradient_wrong_sign. Qed.
+
 Print Assumptions C11_sweep_tt_independent_of_grad.
 Print Assumptions C11_sweep2d_tt_independent_of_grad.
 Print Assumptions C11_sweep3d_tt_independent_of_grad.
@@ -134,3 +185,6 @@ Print Assumptions C11_solve2d_gradient_unit_or_zero.
 Print Assumptions C11_solve3d_gradient_unit_or_zero.
 Print Assumptions C11_solve2d_gradient_shape.
 Print Assumptions C11_solve2d_gradient_empty_without_flag.
+Print Assumptions C11_gradient_is_normalised_one_sided_difference_2d.
+Print Assumptions C11_gradient_component_sign_follows_grid_difference_2d.
+Print Assumptions C11_recorded_direction_not_always_upwind.
